@@ -75,9 +75,15 @@ class BlockingExecutor(Executor):
                 parent_value, self.context_value, info
             )
 
-        return self.complete_value(
-            field_definition.type, nodes, path, info, resolved
-        )
+        try:
+            return self.complete_value(
+                field_definition.type, nodes, path, info, resolved
+            )
+        except (CoercionError, ResolverError) as err:
+            # Raised while completing the value (e.g. by `resolve_type`, or by
+            # invalid `@skip` / `@include` arguments in the sub-selection).
+            self.add_error(err, path, node)
+            return None
 
     def complete_list_value(
         self,
